@@ -19,12 +19,12 @@ import (
 // start (under-run) of its pages. A hardware fault inside the call is an
 // out-of-range access; an ordinary panic is detected misuse.
 
-type gset struct {
+type zvGset struct {
 	pool *hk.Pool
 	bufs map[string]*hk.GBuf
 }
 
-func (s *gset) get(name string, content []byte, place int) []byte {
+func (s *zvGset) get(name string, content []byte, place int) []byte {
 	g := s.pool.Get(len(content), place)
 	g.Writable()
 	copy(g.B, content)
@@ -32,7 +32,7 @@ func (s *gset) get(name string, content []byte, place int) []byte {
 	return g.B
 }
 
-func (s *gset) release() {
+func (s *zvGset) release() {
 	for k, g := range s.bufs {
 		s.pool.Put(g)
 		delete(s.bufs, k)
@@ -41,7 +41,7 @@ func (s *gset) release() {
 
 // where names the argument whose guard (or interior) the faulting address
 // belongs to, with the offset relative to the start of the argument.
-func (s *gset) where(addr uintptr) string {
+func (s *zvGset) where(addr uintptr) string {
 	for name, g := range s.bufs {
 		if in, off := g.InRegion(addr); in {
 			switch {
@@ -59,7 +59,7 @@ func (s *gset) where(addr uintptr) string {
 
 var c11sink int
 
-func placeName(p int) string {
+func zvPlaceName(p int) string {
 	return []string{"end", "start", "mid"}[p]
 }
 
@@ -71,7 +71,7 @@ func TestVerifC11(t *testing.T) {
 		return
 	}
 	rng := hk.NewRNG(hk.Seed(), "c11")
-	gs := &gset{pool: hk.NewPool(), bufs: map[string]*hk.GBuf{}}
+	gs := &zvGset{pool: hk.NewPool(), bufs: map[string]*hk.GBuf{}}
 	faults := 0
 
 	// positive control: the monitor must see a deliberate 1-byte over-read
@@ -90,10 +90,10 @@ func TestVerifC11(t *testing.T) {
 	}
 
 	// ------------------------------------------------------------------ A. Block methods
-	for _, asm := range paths() {
+	for _, asm := range zvPaths() {
 		asm := asm
-		withAsm(asm, func() {
-			pn := pathName(asm)
+		zvWithAsm(asm, func() {
+			pn := zvPathName(asm)
 			key := rng.Bytes(16)
 			blk, _ := NewCipher(key)
 			for _, op := range []string{"Encrypt", "Decrypt"} {
@@ -105,7 +105,7 @@ func TestVerifC11(t *testing.T) {
 						for _, place := range []int{hk.PlaceEnd, hk.PlaceStart} {
 							src := gs.get("src", rng.Bytes(sl), place)
 							dst := gs.get("dst", make([]byte, dl), place)
-							r.Journal("%s %s dst=%d src=%d place=%s", pn, op, dl, sl, placeName(place))
+							r.Journal("%s %s dst=%d src=%d place=%s", pn, op, dl, sl, zvPlaceName(place))
 							p, msg, isFault, addr := hk.Try(func() {
 								if op == "Encrypt" {
 									blk.Encrypt(dst, src)
@@ -113,7 +113,7 @@ func TestVerifC11(t *testing.T) {
 									blk.Decrypt(dst, src)
 								}
 							})
-							d := hk.D{"path": pn, "op": op, "dst_len": dl, "src_len": sl, "placement": placeName(place), "panic": msg}
+							d := hk.D{"path": pn, "op": op, "dst_len": dl, "src_len": sl, "placement": zvPlaceName(place), "panic": msg}
 							short := dl < 16 || sl < 16
 							switch {
 							case p && isFault:
@@ -136,7 +136,7 @@ func TestVerifC11(t *testing.T) {
 								}
 							}
 							gs.release()
-							r.Eval(fmt.Sprintf("%s|%s|short=%v|%s", pn, op, short, placeName(place)))
+							r.Eval(fmt.Sprintf("%s|%s|short=%v|%s", pn, op, short, zvPlaceName(place)))
 						}
 					}
 				}
@@ -178,7 +178,7 @@ func TestVerifC11(t *testing.T) {
 	}
 	var scs []sc
 	for pl := 0; pl <= 1100; pl++ {
-		if !hk.Thorough() && pl > 300 && pl%5 != int(hk.Seed()%5) && !isClassLen(pl) {
+		if !hk.Thorough() && pl > 300 && pl%5 != int(hk.Seed()%5) && !zvIsClassLen(pl) {
 			continue
 		}
 		scs = append(scs, sc{12, rng.Pick([]int{0, 1, 16, 33}), pl, 12 + pl%5, pl%2 == 0, hk.PlaceEnd})
@@ -194,10 +194,10 @@ func TestVerifC11(t *testing.T) {
 	}
 	r.Note("seal_open_shapes", len(scs))
 	r.Sample(hk.D{"op": "Seal/Open", "lens": "nonce=12 aad=16 pt=17 tag=14", "placement": "every argument end-abutting a PROT_NONE page", "dst": "nil or exact-capacity guarded"})
-	for _, asm := range paths() {
+	for _, asm := range zvPaths() {
 		asm := asm
-		withAsm(asm, func() {
-			pn := pathName(asm)
+		zvWithAsm(asm, func() {
+			pn := zvPathName(asm)
 			aeads := map[[2]int]cipher.AEAD{}
 			key := rng.Bytes(16)
 			g := ref.NewGCM(key)
@@ -211,7 +211,7 @@ func TestVerifC11(t *testing.T) {
 				a, ok := aeads[[2]int{c.nl, c.tag}]
 				if !ok {
 					var err error
-					a, err = newAEAD(key, c.nl, c.tag)
+					a, err = zvNewAEAD(key, c.nl, c.tag)
 					if err != nil {
 						r.Violation("cannot-construct-aead:"+pn, hk.D{"err": err.Error()})
 						continue
@@ -236,7 +236,7 @@ func TestVerifC11(t *testing.T) {
 						in = gs.get("plaintext", ptV, c.place)
 						need = c.pl + c.tag
 					case "Open-forged":
-						in = gs.get("ciphertext", flipBit(sealed, rng.Intn(len(sealed)*8)), c.place)
+						in = gs.get("ciphertext", zvFlipBit(sealed, rng.Intn(len(sealed)*8)), c.place)
 						need = c.pl
 					case "Seal-inplace":
 						// one buffer of exactly len(pt)+tag bytes against the guard pages: plaintext at its start, dst = buf[:0]
@@ -277,7 +277,7 @@ func TestVerifC11(t *testing.T) {
 						full := gs.get("dst", make([]byte, need), c.place)
 						dst = full[:0]
 					}
-					r.Journal("%s %s nonce=%d aad=%d pt=%d tag=%d exactdst=%v place=%s", pn, op, c.nl, c.al, c.pl, c.tag, c.exactDst, placeName(c.place))
+					r.Journal("%s %s nonce=%d aad=%d pt=%d tag=%d exactdst=%v place=%s", pn, op, c.nl, c.al, c.pl, c.tag, c.exactDst, zvPlaceName(c.place))
 					var out []byte
 					var oerr error
 					p, msg, isFault, addr := hk.Try(func() {
@@ -288,7 +288,7 @@ func TestVerifC11(t *testing.T) {
 						}
 					})
 					d := hk.D{"path": pn, "op": op, "nonce_len": c.nl, "aad_len": c.al, "pt_len": c.pl, "tag": c.tag, "dst": map[bool]string{true: "exact-capacity-guarded", false: "nil"}[c.exactDst],
-						"placement": placeName(c.place), "panic": msg, "key": hk.Hex(key), "nonce": hk.Hex(nonceV), "aad": hk.Hex(aadV), "input": hk.Hex(in)}
+						"placement": zvPlaceName(c.place), "panic": msg, "key": hk.Hex(key), "nonce": hk.Hex(nonceV), "aad": hk.Hex(aadV), "input": hk.Hex(in)}
 					switch {
 					case p && isFault:
 						faults++
@@ -310,14 +310,14 @@ func TestVerifC11(t *testing.T) {
 						r.Violation(fmt.Sprintf("gcm-accepts-bad-input:%s:%s", pn, op), d)
 					}
 					gs.release()
-					r.Eval(fmt.Sprintf("%s|%s|pt%%16=%d,aad%%16=%d,nonce%%16=%d,tag=%d,%s,dst=%v", pn, op, c.pl%16, c.al%16, c.nl%16, c.tag, placeName(c.place), c.exactDst))
+					r.Eval(fmt.Sprintf("%s|%s|pt%%16=%d,aad%%16=%d,nonce%%16=%d,tag=%d,%s,dst=%v", pn, op, c.pl%16, c.al%16, c.nl%16, c.tag, zvPlaceName(c.place), c.exactDst))
 				}
 			}
 		})
 	}
 
 	// ------------------------------------------------------------------ C. assembly routines directly
-	if asmDetected {
+	if zvAsmDetected {
 		key := rng.Bytes(16)
 		refRK := ref.SM4RoundKeys(key)
 		// the cipher object as the library lays it out: enc[32] then dec[32], nothing after it
@@ -346,9 +346,9 @@ func TestVerifC11(t *testing.T) {
 					}
 					src := gs.get("src", rng.Bytes(16*k.lanes), place)
 					dst := gs.get("dst", make([]byte, 16*k.lanes), place)
-					r.Journal("kernel %s place=%s dec=%v", k.name, placeName(place), useDec)
+					r.Journal("kernel %s place=%s dec=%v", k.name, zvPlaceName(place), useDec)
 					p, msg, isFault, addr := hk.Try(func() { k.f(rk, &dst[0], &src[0]) })
-					d := hk.D{"routine": k.name, "placement": placeName(place), "schedule": map[bool]string{false: "enc", true: "dec"}[useDec], "panic": msg}
+					d := hk.D{"routine": k.name, "placement": zvPlaceName(place), "schedule": map[bool]string{false: "enc", true: "dec"}[useDec], "panic": msg}
 					if p && isFault {
 						faults++
 						d["fault"] = gs.where(addr)
@@ -368,7 +368,7 @@ func TestVerifC11(t *testing.T) {
 						}
 					}
 					gs.release()
-					r.Eval(fmt.Sprintf("kernel|%s|%s|dec=%v", k.name, placeName(place), useDec))
+					r.Eval(fmt.Sprintf("kernel|%s|%s|dec=%v", k.name, zvPlaceName(place), useDec))
 				}
 			}
 		}
@@ -376,13 +376,13 @@ func TestVerifC11(t *testing.T) {
 		for _, place := range []int{hk.PlaceEnd, hk.PlaceStart} {
 			k := gs.get("key", key, place)
 			obj := gs.get("cipher-object", make([]byte, 256), place)
-			r.Journal("expandKeyAsm place=%s", placeName(place))
+			r.Journal("expandKeyAsm place=%s", zvPlaceName(place))
 			p, msg, isFault, addr := hk.Try(func() {
 				expandKeyAsm(&k[0], (*uint32)(unsafe.Pointer(&obj[0])), (*uint32)(unsafe.Pointer(&obj[128])))
 			})
 			if p && isFault {
 				faults++
-				r.Violation("kernel-out-of-range-access:expandKeyAsm:"+gs.where(addr), hk.D{"placement": placeName(place), "panic": msg})
+				r.Violation("kernel-out-of-range-access:expandKeyAsm:"+gs.where(addr), hk.D{"placement": zvPlaceName(place), "panic": msg})
 			} else if p {
 				r.Violation("kernel-panics:expandKeyAsm", hk.D{"panic": msg})
 			} else {
@@ -396,7 +396,7 @@ func TestVerifC11(t *testing.T) {
 				}
 			}
 			gs.release()
-			r.Eval("kernel|expandKeyAsm|" + placeName(place))
+			r.Eval("kernel|expandKeyAsm|" + zvPlaceName(place))
 		}
 		// expandKeyAsm again with enc and dec as two SEPARATE objects of 128 bytes (the routine takes two pointers; that the
 		// library's only caller passes neighbours is not part of its contract): a store reaching past either array faults
@@ -404,13 +404,13 @@ func TestVerifC11(t *testing.T) {
 			k := gs.get("key", key, place)
 			encB := gs.get("enc-array", make([]byte, 128), place)
 			decB := gs.get("dec-array", make([]byte, 128), place)
-			r.Journal("expandKeyAsm separate arrays place=%s", placeName(place))
+			r.Journal("expandKeyAsm separate arrays place=%s", zvPlaceName(place))
 			p, msg, isFault, addr := hk.Try(func() {
 				expandKeyAsm(&k[0], (*uint32)(unsafe.Pointer(&encB[0])), (*uint32)(unsafe.Pointer(&decB[0])))
 			})
 			if p && isFault {
 				faults++
-				r.Violation("kernel-out-of-range-access:expandKeyAsm(separate-arrays):"+gs.where(addr), hk.D{"placement": placeName(place), "panic": msg})
+				r.Violation("kernel-out-of-range-access:expandKeyAsm(separate-arrays):"+gs.where(addr), hk.D{"placement": zvPlaceName(place), "panic": msg})
 			} else if p {
 				r.Violation("kernel-panics:expandKeyAsm(separate-arrays)", hk.D{"panic": msg})
 			} else {
@@ -424,7 +424,7 @@ func TestVerifC11(t *testing.T) {
 				}
 			}
 			gs.release()
-			r.Eval("kernel|expandKeyAsm-separate-arrays|" + placeName(place))
+			r.Eval("kernel|expandKeyAsm-separate-arrays|" + zvPlaceName(place))
 		}
 		// gHashBlocks: H, tag (in/out), data of count blocks
 		for count := 1; count <= hk.N(40, 80); count++ {
@@ -433,11 +433,11 @@ func TestVerifC11(t *testing.T) {
 				tag := gs.get("tag", rng.Bytes(16), place)
 				data := gs.get("data", rng.Bytes(16*count), place)
 				t0 := ref.FEFromBytes(tag)
-				r.Journal("gHashBlocks count=%d place=%s", count, placeName(place))
+				r.Journal("gHashBlocks count=%d place=%s", count, zvPlaceName(place))
 				p, msg, isFault, addr := hk.Try(func() { gHashBlocks(&H[0], &tag[0], &data[0], count) })
 				if p && isFault {
 					faults++
-					r.Violation("kernel-out-of-range-access:gHashBlocks:"+gs.where(addr), hk.D{"count": count, "placement": placeName(place), "panic": msg})
+					r.Violation("kernel-out-of-range-access:gHashBlocks:"+gs.where(addr), hk.D{"count": count, "placement": zvPlaceName(place), "panic": msg})
 				} else if p {
 					r.Violation("kernel-panics:gHashBlocks", hk.D{"panic": msg})
 				} else {
@@ -451,20 +451,20 @@ func TestVerifC11(t *testing.T) {
 					}
 				}
 				gs.release()
-				r.Eval(fmt.Sprintf("kernel|gHashBlocks|4way=%v|%s", count >= 8, placeName(place)))
+				r.Eval(fmt.Sprintf("kernel|gHashBlocks|4way=%v|%s", count >= 8, zvPlaceName(place)))
 			}
 		}
 		// copyAsm (prefix copy of ensureCapacity): every length 0..130, both placements
-		for n := 1; n <= 130 && asmHelpersAvailable; n++ {
+		for n := 1; n <= 130 && zvAsmHelpersAvailable; n++ {
 			for _, place := range []int{hk.PlaceEnd, hk.PlaceStart} {
 				srcV := rng.Bytes(n)
 				src := gs.get("src", srcV, place)
 				dst := gs.get("dst", make([]byte, n), place)
-				r.Journal("copyAsm len=%d place=%s", n, placeName(place))
+				r.Journal("copyAsm len=%d place=%s", n, zvPlaceName(place))
 				p, msg, isFault, addr := hk.Try(func() { vCopyAsm(&dst[0], &src[0], n) })
 				if p && isFault {
 					faults++
-					r.Violation("kernel-out-of-range-access:copyAsm:"+gs.where(addr), hk.D{"len": n, "placement": placeName(place), "panic": msg})
+					r.Violation("kernel-out-of-range-access:copyAsm:"+gs.where(addr), hk.D{"len": n, "placement": zvPlaceName(place), "panic": msg})
 				} else if p {
 					r.Violation("kernel-panics:copyAsm", hk.D{"panic": msg})
 				} else if !bytes.Equal(dst, srcV) {
@@ -476,7 +476,7 @@ func TestVerifC11(t *testing.T) {
 		}
 		// copyAsm at EVERY alignment of source and destination and every short length, inside larger buffers whose
 		// surroundings are canaries (the page-edge placements above fix the alignment to the length)
-		for sa := 0; sa < 16 && asmHelpersAvailable; sa++ {
+		for sa := 0; sa < 16 && zvAsmHelpersAvailable; sa++ {
 			for da := 0; da < 16; da += 1 + sa%3 {
 				for n := 0; n <= 40; n++ {
 					sbuf, dbuf := rng.Bytes(96), bytes.Repeat([]byte{0xC7}, 96)
@@ -497,7 +497,7 @@ func TestVerifC11(t *testing.T) {
 		}
 		// sealAsm / openAsm with the 32-byte scratch block and round keys inside the object
 		directCases := []sc{{12, 0, 0, 16, true, hk.PlaceEnd}, {12, 20, 17, 16, true, hk.PlaceEnd}, {13, 1, 300, 16, true, hk.PlaceStart}, {12, 16, 256, 12, true, hk.PlaceEnd}, {130, 129, 1, 16, true, hk.PlaceEnd}, {12, 7, 513, 13, true, hk.PlaceStart}}
-		if !asmDirectAvailable {
+		if !zvAsmDirectAvailable {
 			directCases = nil
 			r.Class("trivial:direct-asm-calls-unavailable-on-this-tree")
 		}
@@ -521,7 +521,7 @@ func TestVerifC11(t *testing.T) {
 				r.Violation("kernel-wrong-under-guard:sealAsm", hk.D{"lens": fmt.Sprint(c)})
 			}
 			gs.release()
-			r.Eval("kernel|sealAsm|" + placeName(c.place))
+			r.Eval("kernel|sealAsm|" + zvPlaceName(c.place))
 			encp, _ = layRK(c.place)
 			nonce = gs.get("nonce", nonceV, c.place)
 			aad = gs.get("aad", aadV, c.place)
@@ -544,7 +544,7 @@ func TestVerifC11(t *testing.T) {
 				r.Violation("kernel-wrong-under-guard:openAsm", hk.D{"lens": fmt.Sprint(c), "res": res})
 			}
 			gs.release()
-			r.Eval("kernel|openAsm|" + placeName(c.place))
+			r.Eval("kernel|openAsm|" + zvPlaceName(c.place))
 		}
 	}
 	r.Count("faults_observed", int64(faults))
